@@ -35,10 +35,10 @@ type propSpec struct {
 var props = map[string]propSpec{
 	"C01": {"C01", []string{"genmap", "genselect", "gensep", "rnd-gen"}, "", nil},
 	"C02": {"C02", []string{"genmap", "rnd-gen", "empty", "rnd-empty"}, "", nil},
-	"C03": {"C03", []string{"empty", "rnd-empty"}, "", nil},
+	"C03": {"C03", []string{"empty", "boundary", "rnd-empty"}, "", nil},
 	"C04": {"C04", []string{"empty", "boundary", "rnd-empty"}, "", nil},
 	"C05": {"C05", []string{"reset", "rnd-reset"}, "", nil},
-	"C06": {"C06", []string{"badfrom", "badto", "rnd-badfrom", "rnd-badto"}, "", nil},
+	"C06": {"C06", []string{"badfrom", "badto", "planto", "rnd-badfrom", "rnd-badto"}, "", nil},
 	"C07": {"C07", []string{"empty", "reset", "rnd-empty", "rnd-reset"}, "", nil},
 	"C08": {"C08", []string{"echo", "rnd-echo"}, "", nil},
 	"C09": {"C09", []string{"refresh", "lifecycle", "rnd-refresh"}, "", nil},
@@ -52,7 +52,7 @@ var props = map[string]propSpec{
 	"C17": {"C17", []string{"custom", "customplan", "custombad", "custombadto"}, "", nil},
 	"C18": {"C18", []string{"genwhole"}, "", nil},
 	"C19": {"C19", []string{"boundary"}, "", nil},
-	"C20": {"C20", []string{"empty", "rnd-empty"}, "", nil},
+	"C20": {"C20", []string{"empty", "boundary", "rnd-empty"}, "", nil},
 }
 
 // properties about the generator run: their checks also model-check the run machine
